@@ -113,6 +113,10 @@ def draw_fit(seed, i, fixtures, tier):
         # rank 0 writes previous_eqns_<n>.txt into the library directory, every rank reads it while fitting
         opts['test_all']['ignore_previous_eqns'] = True
     extra = {}
+    weak = None
+    if rng.random() < (0.5 if fx['runname'].startswith('synth') else 0.15):
+        # weakly constraining data: the stored second derivatives are scaled down before the match stage
+        weak = rng.choice([1e-3, 1e-6, 1e-10])
     if rng.random() < 0.15 and TIMED_LINES:
         # F3 in the fitting stage: the per-function time limit of test_all expires - before a chosen statement in every fit
         # (incl. the statements of time_limit itself), or at a statement / a call inside scipy in a few chosen fits
@@ -124,7 +128,7 @@ def draw_fit(seed, i, fixtures, tier):
         else:
             pl = {str(rng.randint(1, 8)): ['deep', rng.randint(1, 4000)] for _ in range(rng.randint(1, 2))}
         extra = dict(plan={str(r): dict(pl) for r in range(P)}, tick_modules=['esr.generation.simplifier', 'esr.fitting.test_all'])
-    return dict(extra, runname=fx['runname'], compl=fx['compl'], lib_src=fx['lib'], like=like, opts=opts, P=P, seed=rs,
+    return dict(extra, weak_fisher=weak, runname=fx['runname'], compl=fx['compl'], lib_src=fx['lib'], like=like, opts=opts, P=P, seed=rs,
                 policy=draw_policy(rng, P), eager=rng.choice([0.0, 0.2, 0.5, 0.8, 1.0]), root_copy=rng.random() < 0.25,
                 data_seed=rs % 100003, npts=rng.randint(20, 40), npseed=rs % 9973, run_seed=rs, nuniq=fx['nuniq'], synth_seed=rs % 977)
 
@@ -213,6 +217,8 @@ def main(tier, seed, budget):
                     stats['fault_worlds'] += int(bool(a.get('plan')))
                     stats['faults_fired'] += sum(len((rk.get('clock') or {}).get('fired') or []) for rk in r['ranks'])
                     stats['ipe_worlds'] += int(bool((a.get('opts') or {}).get('test_all', {}).get('ignore_previous_eqns')))
+                    stats['weak_worlds'] = stats.get('weak_worlds', 0) + int(bool(a.get('weak_fisher')))
+                    stats['match_rows'] = stats.get('match_rows', 0) + int(((r.get('stats') or {}).get('match_rows_checked')) or 0)
                     stats['by_like'][a['like']['cls']] = stats['by_like'].get(a['like']['cls'], 0) + 1
                     stats['P_gt_U'] += int(a['P'] > (a.get('nuniq') or 0))
                     stats['P_ge_11'] += int(a['P'] >= 11)
@@ -269,7 +275,7 @@ def main(tier, seed, budget):
         samples=samples, fit_worlds=stats['fit_worlds'], tile_worlds=stats['tile_worlds'], tile_cases=stats['tile_cases'],
         tile_distinct_N_P_pairs=len(stats['tile_pairs']), tile_sweep_complete_N_le_64_P_le_16=not quick,
         worlds_by_P=stats['by_P'], worlds_by_policy=stats['by_policy'], worlds_by_likelihood=stats['by_like'],
-        fit_worlds_with_more_ranks_than_unique_functions=stats['P_gt_U'], fit_worlds_with_P_ge_11=stats['P_ge_11'], fit_worlds_with_ignore_previous_eqns=stats['ipe_worlds'], fit_worlds_with_timeouts_in_test_all=stats['fault_worlds'], timeouts_fired_in_fitting=stats['faults_fired'],
+        fit_worlds_with_more_ranks_than_unique_functions=stats['P_gt_U'], fit_worlds_with_P_ge_11=stats['P_ge_11'], fit_worlds_with_ignore_previous_eqns=stats['ipe_worlds'], fit_worlds_with_weakly_constraining_second_derivatives=stats.get('weak_worlds', 0), match_rows_recomputed=stats.get('match_rows', 0), fit_worlds_with_timeouts_in_test_all=stats['fault_worlds'], timeouts_fired_in_fitting=stats['faults_fired'],
         output_rows_recomputed=stats['rows_checked'], one_rank_reruns_compared=stats['cmp_runs'],
         seam_events=stats['events'], runs_per_hour=round(3600.0 * nw / max(wall, 1e-9)),
         fault_kinds={'F1 interleaving choice': stats['events'], 'F5 rank count': nw, 'F3 timer expiry in test_all (fired)': stats['faults_fired']}, selftest=selftest,
